@@ -11,14 +11,19 @@ import sys, json, time
 import lark
 from mappyfile.parser import Parser
 from mappyfile.transformer import MapfileToDict
+import mappyfile
 p = Parser(expand_includes=False)
 m = MapfileToDict()
 out = sys.stdout
+MODULE_API = len(sys.argv) > 1 and sys.argv[1] == "module"
 for line in sys.stdin:
     text = json.loads(line)
     t0 = time.perf_counter()
     try:
-        m.transform(p.parse(text))
+        if MODULE_API:
+            mappyfile.loads(text, expand_includes=False)
+        else:
+            m.transform(p.parse(text))
         r = ["ok"]
     except Exception as ex:
         if isinstance(ex, lark.exceptions.UnexpectedInput):
@@ -33,13 +38,15 @@ for line in sys.stdin:
 
 
 class Guarded:
-    def __init__(self, repo):
+    def __init__(self, repo, module_api=False):
+        """module_api: call mappyfile.loads (a new Parser per call on the pinned tree) instead of one reused Parser"""
         self.repo = repo
+        self.module_api = module_api
         self.p = None
 
     def _start(self):
         env = dict(os.environ, PYTHONPATH=self.repo, PYTHONHASHSEED="0", PYTHONDONTWRITEBYTECODE="1")
-        self.p = subprocess.Popen(["/venv/bin/python", "-c", WORKER], stdin=subprocess.PIPE, stdout=subprocess.PIPE,
+        self.p = subprocess.Popen(["/venv/bin/python", "-c", WORKER] + (["module"] if self.module_api else []), stdin=subprocess.PIPE, stdout=subprocess.PIPE,
                                   stderr=subprocess.DEVNULL, env=env, cwd="/")
 
     def classify(self, text, timeout):
